@@ -833,11 +833,22 @@ func (f *File) Readdirnames(n int) ([]string, error) {
 		}
 		return names[a] < names[b]
 	})
-	for i := len(names) - 1; i > 0; i-- {
-		j := verifsim.Choose(i + 1)
-		// Choose returns 0 for the canonical order; map 0 to "keep".
-		j = i - j
-		names[i], names[j] = names[j], names[i]
+	// Exactly one draw per call, whatever the number of entries: cache file
+	// names are content hashes (which depend on gob's encoding of maps
+	// inside analyzer facts, i.e. on the runtime's map order), so how files
+	// spread over the 256 sub-directories must not influence the number of
+	// tape entries consumed.
+	if r := verifsim.Choose(1 << 30); r != 0 {
+		z := uint64(r) * 0x9E3779B97F4A7C15
+		for i := len(names) - 1; i > 0; i-- {
+			z += 0x9E3779B97F4A7C15
+			x := z
+			x = (x ^ (x >> 30)) * 0xBF58476D1CE4E5B9
+			x = (x ^ (x >> 27)) * 0x94D049BB133111EB
+			x ^= x >> 31
+			j := int(x % uint64(i+1))
+			names[i], names[j] = names[j], names[i]
+		}
 	}
 	if n > 0 && len(names) > n {
 		names = names[:n]
